@@ -10,6 +10,7 @@ import (
 	"strconv"
 	"strings"
 	"time"
+	_ "time/tzdata"
 
 	"github.com/tormoder/fit"
 )
@@ -104,12 +105,20 @@ func parseCanon(v reflect.Value, s string) error {
 			if err != nil {
 				return err
 			}
-			off, err := strconv.Atoi(body[i+1:])
+			dst := strings.HasSuffix(body, "D")
+			off, err := strconv.Atoi(strings.TrimSuffix(body[i+1:], "D"))
 			if err != nil {
 				return err
 			}
 			t := time.Unix(unix, 0).UTC()
-			if off != 0 || strings.HasSuffix(s, "+0L") {
+			if dst {
+				// the same instant and offset, carried by a tz-database location with
+				// daylight saving time (what time.Local is on a user's machine)
+				t = t.In(dstZone())
+				if _, o := t.Zone(); o != off {
+					return fmt.Errorf("canonical time %s: zone %s has offset %d at that instant", s, dstZoneName, o)
+				}
+			} else if off != 0 || strings.HasSuffix(s, "+0L") {
 				t = t.In(time.FixedZone("SIMLOCAL", off))
 			}
 			v.Set(reflect.ValueOf(t))
@@ -249,4 +258,21 @@ func encodeModelFileInto(mf *ModelFile, arch string, prefix int) []byte {
 		return out
 	}
 	return out[prefix:]
+}
+
+// dstZone: a location whose offset depends on the instant (embedded tz database,
+// so the check does not depend on the machine's zoneinfo files).
+const dstZoneName = "Europe/Berlin"
+
+var dstLoc *time.Location
+
+func dstZone() *time.Location {
+	if dstLoc == nil {
+		l, err := time.LoadLocation(dstZoneName)
+		if err != nil {
+			fatalInfra("embedded tz database: %v", err)
+		}
+		dstLoc = l
+	}
+	return dstLoc
 }
